@@ -116,7 +116,8 @@ def gen_scenario(rng):
             # the enum field type shared by tables and the record formatter is the long-lived cache
             o = rng.choice([i for i, x in enumerate(objects) if x['kind'] in ('table', 'rec')])
         c = rng.randrange(len(confs))
-        via = rng.choice(['explicit', 'explicit', 'global', 'palette_class', 'palette_obj', 'custom_palette'])
+        via = rng.choice(['explicit', 'explicit', 'global', 'palette_class', 'palette_obj', 'custom_palette',
+                          'custom_palette2'])
         mode = rng.choice(['whole', 'whole', 'lines', 'lines_join', 'whole_then_lines', 'lines_twice', 'interleaved',
                            'copy', 'concat', 'format', 'plain', 'slice', 'fixed', 'compared'])
         if objects[o]['kind'] in ('rec', 'hdoc', 'ppwrap'):
@@ -127,7 +128,7 @@ def gen_scenario(rng):
         for nc in ([False, True] if rng.random() < 0.6 else [rng.random() < 0.3]):
             requests.append({'obj': o, 'conf': c, 'no_color': nc, 'mode': mode, 'via': via,
                              'long_lived_conf': long_lived})
-            if via in ('explicit', 'palette_class', 'custom_palette') and not long_lived and rng.random() < 0.4:
+            if via in ('explicit', 'palette_class', 'custom_palette', 'custom_palette2') and not long_lived and rng.random() < 0.4:
                 requests[-1]['discard_conf'] = True
             if via == 'global' and objects[o]['kind'] not in ('hdoc', 'ppwrap') and rng.random() < 0.5:
                 requests[-1]['switch_conf'] = confs[(c + 1) % len(confs)]
@@ -166,6 +167,15 @@ def gen_scenario(rng):
             if removed:
                 req['removed'] = removed
             requests.append(req)
+    # the first table is rendered with both custom palettes (two classes called the same) under one long-lived
+    # configuration, in either order
+    c = rng.randrange(len(confs))
+    for via in rng.sample(['custom_palette', 'custom_palette2'], 2) + ['custom_palette']:
+        requests.append({'obj': 0, 'conf': c, 'no_color': False, 'mode': 'whole', 'via': via, 'long_lived_conf': True})
+        if cur_fmt.get(0):
+            requests[-1]['set_fmt'] = cur_fmt[0]
+        if cur_removed.get(0):
+            requests[-1]['removed'] = list(cur_removed[0])
     return {'objects': objects, 'confs': confs, 'requests': requests}
 
 
@@ -280,7 +290,7 @@ def run_scenario(ctx, scenario, case, workdir):
         except sgr.SgrError as err:
             problems.append(("malformed-escape-sequence-in-rendering", dict(where, err=str(err))))
             continue
-        same = by_req.setdefault((req['obj'], req['conf'], req['no_color'], req['via'] == 'custom_palette',
+        same = by_req.setdefault((req['obj'], req['conf'], req['no_color'], req['via'],
                                   req.get('set_fmt'), tuple(req.get('removed') or ())),
                                  (out, req['mode'], idx))
         if same[0] != out:
